@@ -599,8 +599,20 @@ func checkMergedView(p *Program, r *Report) {
 		fk := funcKey(a.seekRec)
 		inl := map[string]bool{}
 		for k := range directCallees(a.seekRec) {
-			if g := p.Func(k); g != nil && g != a.seekRec && g.Signature.Recv() != nil && types.Identical(g.Signature.Recv().Type(), a.seekRec.Signature.Recv().Type()) {
+			g := p.Func(k)
+			if g == nil || g == a.seekRec {
+				continue
+			}
+			if g.Signature.Recv() != nil && types.Identical(g.Signature.Recv().Type(), a.seekRec.Signature.Recv().Type()) {
 				inl[k] = true // helper methods of the view (e.g. the per-table seek loop on its own)
+			}
+			// constructor helpers: plain functions handing back a new merged iterator
+			if g.Signature.Recv() == nil {
+				for i := 0; i < g.Signature.Results().Len(); i++ {
+					if pt, ok := g.Signature.Results().At(i).Type().(*types.Pointer); ok && types.Identical(pt.Elem(), a.iterT) {
+						inl[k] = true
+					}
+				}
 			}
 		}
 		cfg := &simCfg{Event: map[string]bool{seekName: true, funcKey(a.initF): true}, Keep: map[string]bool{funcKey(a.initF): true}, Pure: map[string]bool{"method:(record).typ": true, "method:(Table).Name": true}, NoInlineDefault: true, Inline: inl}
@@ -743,6 +755,15 @@ func checkMergedView(p *Program, r *Report) {
 					t := s.St.fterm[k]
 					if t.Op == "eq" && v && (t.Args[0].isNilConst() || t.Args[1].isNilConst()) {
 						spec = fAtom(tEq(hashCall, hashP))
+					}
+					// or: the position of this table is known to be 0 (`i > 0 && ...` is false)
+					if curMark != nil && t.contains(curMark) {
+						zero := tConst("0", nil)
+						if (t.Op == "lt" && v && t.Args[1] == zero && t.Args[0].containsOp("loopvar")) ||
+							(t.Op == "lt" && !v && t.Args[0] == zero && t.Args[1].containsOp("loopvar")) ||
+							(t.Op == "eq" && v && (t.Args[0] == zero || t.Args[1] == zero) && t.containsOp("loopvar")) {
+							spec = fAtom(tEq(hashCall, hashP))
+						}
 					}
 				}
 			}
